@@ -323,13 +323,18 @@ Definition b_fl (x : st) : out :=
    do when src is a plain io.Reader holding [b].  Of the writers of the stack only templates'
    ResponseBuffer (and net/http's own response) offers ReadFrom; on every other writer io.Copy
    falls back to Write, and writes nothing when the source is empty.
-   ResponseBuffer.ReadFrom: `if !rb.wroteHeader { rb.WriteHeader(200) }` FIRST - that call is what
-   makes the buffer decide whether to buffer -, then, streaming: io.CopyBuffer to the writer
-   below (Writes, none for an empty source); buffering: rb.Buffer.ReadFrom(src).
-   For a non-empty source this is exactly ResponseBuffer.Write. *)
+   ResponseBuffer.ReadFrom: while the header has not been written (`if !rb.wroteHeader`) the
+   beginning of src - up to one pooled copy buffer - is copied through rb.Write
+   (io.CopyBuffer on the bare io.Writer): io.CopyBuffer calls Write only with bytes it has read,
+   so an EMPTY source leaves the ResponseBuffer untouched (no implicit WriteHeader, no decision
+   about buffering, as net/http's own ReadFrom), and the first bytes of a non-empty one make
+   Write write the implicit header - that call is what makes the buffer decide whether to
+   buffer; what is left of src then takes the old paths (streaming: io.CopyBuffer to the writer
+   below; buffering: rb.Buffer.ReadFrom(src)).  For a non-empty source this is exactly
+   ResponseBuffer.Write of the bytes copied. *)
 Definition b_rf (b : bytes) (x : st) : out :=
   match b with
-  | [] => if b_active x then (if b_wrote x then Done x else b_wh 200 x) else Done x
+  | [] => Done x
   | _ :: _ => b_wr b x
   end.
 
@@ -798,9 +803,9 @@ Fixpoint wh_first (committed : bool) (ops : list op) : bool :=
   | OWr _ :: r => wh_first true r
   | OFl :: r => wh_first true r
   | OPanic _ :: _ => true
-  (* a copy writes; copying an empty source is not something the contract covers: on templates'
-     ResponseBuffer it commits the header although nothing is written (C12_empty_copy_refuted) *)
-  | ORf [] :: _ => false
+  (* a copy writes; a copy from an empty source does not touch the response on any writer
+     (C12_empty_copy_transparent) *)
+  | ORf [] :: r => wh_first committed r
   | ORf (_ :: _) :: r => wh_first true r
   end.
 Definition handler_contract (ops : list op) (ret : Z) : bool :=
